@@ -14,9 +14,55 @@ static long double LD(const json& q) { return (long double)q[0].get<int>() / (lo
 static double dot3(const Vector& a, const Vector& b) { return a[0] * b[0] + a[1] * b[1] + a[2] * b[2]; }
 static Vector cross3(const Vector& a, const Vector& b) { return Vector({a[1] * b[2] - a[2] * b[1], a[2] * b[0] - a[0] * b[2], a[0] * b[1] - a[1] * b[0]}); }
 
+// beyond the listed properties: Angle, Normalize, Normalized (anchored next to the spherical coordinates, no clause of their own)
+static int record_aux(Rng& g, bool quick, Trace& T)
+{
+	int n = quick ? 1500 : 20000;
+	for(int i = 0; i < n; i++)
+	{
+		int dim = (int)g.range(1, 6);
+		std::vector<double> c(dim);
+		double mag = std::pow(10.0, g.uni(-100, 100));
+		for(auto& x : c)
+			x = g.gauss() * mag;
+		if(g.coin(0.2))
+			c[(int)g.range(0, dim - 1)] = 0.0;
+		Vector v(c), w(c);
+		if(v.Norm() == 0.0)
+			continue;
+		intent("Normalize / Normalized");
+		Vector u = v.Normalized();
+		bool kept = true, same = true;
+		for(int k = 0; k < dim; k++)
+			kept = kept && bits(v[k]) == bits(c[k]);
+		w.Normalize();
+		for(int k = 0; k < dim; k++)
+			same = same && bits(w[k]) == bits(u[k]);
+		double worst = std::fabs(u.Norm() - 1.0);
+		for(int k = 0; k < dim; k++)
+			worst = std::max(worst, std::fabs(u[k] * v.Norm() - c[k]) / v.Norm());	 // parallel to the original
+		// Angle: between a vector and its image under a rotation about a perpendicular axis it is |alpha| (alpha in [0.3, pi-0.3], where acos is well conditioned)
+		intent("Angle");
+		double r = g.logu(1e-6, 1e6), th = g.uni(0.3, PI - 0.3), ph = g.uni(0, 2 * PI);
+		Vector axis({g.gauss(), g.gauss(), g.gauss()});
+		axis = g.logu(1e-6, 1e6) * axis;
+		double a1 = Angle(Spherical_Coordinates(r, th, ph, axis), axis), a2 = Angle(axis, Spherical_Coordinates(r, th, ph, axis));
+		T.emit({{"e", "Aux"}, {"dim", dim}, {"normq", quant(worst, 8 * EPS)}, {"kept", kept}, {"same", same}, {"angq", quant(a1 - th, 1e-11)}, {"sym", bits(a1) == bits(a2)}, {"size", (int)u.Size() == dim && (int)w.Size() == dim}});
+	}
+	T.flush();
+	finished();
+	return 0;
+}
+
 int main(int argc, char** argv)
 {
 	guard_install(1500);
+	if(argc == 5 && std::string(argv[1]) == "aux")
+	{
+		Rng g(std::strtoull(argv[2], nullptr, 10));
+		Trace T(argv[4]);
+		return record_aux(g, std::string(argv[3]) == "quick", T);
+	}
 	if(argc != 6 || std::string(argv[1]) != "run")
 	{
 		finished();
